@@ -85,6 +85,10 @@ def run(ctx: Ctx) -> None:
             if ok:
                 # (a) reaching definitions of the argument: constructor calls of the matching class
                 defs = [cfg.nodes[i] for i in rd.get(n.id, {}).get(arg.id, ())]
+                # a definition that stores None cannot reach a use that lies behind a not-None test of the variable
+                not_none = _known_not_none(cfg, rd, n, arg.id)
+                if not_none:
+                    defs = [d for d in defs if not (isinstance(getattr(d.stmt, "value", None), ast.Constant) and d.stmt.value.value is None)]
                 ctors = []
                 for d in defs:
                     v = getattr(d.stmt, "value", None)
@@ -123,8 +127,11 @@ def run(ctx: Ctx) -> None:
                     why.append(f"{cb} is not dominated by self._setup_state({arg.id}) on the same object")
                 for d, v in ctors:
                     if not any(cfg.dominates(d, s) for s in dom_setup):
-                        ok = False
-                        why.append("the state construction does not dominate _setup_state")
+                        # several constructions merging in front of one push: each of them must reach it (the push sees the
+                        # same definitions as the callback, established above) and nothing else may (None filtered by the test)
+                        if not (not_none and dom_setup and all(_known_not_none(cfg, rd, s, arg.id) for s in dom_setup)):
+                            ok = False
+                            why.append("the state construction does not dominate _setup_state")
             else:
                 why.append("argument is not a local holding the new state")
             ctx.ob("R4.2", f"parser:CxxParser.{fname}|{cb}", ok, msg="; ".join(why), node=call, mod=mod)
